@@ -189,7 +189,7 @@ func mergeGateways(gateways []gatewayWithInstances, proxy *Proxy, ps *PushContex
 	gatewayNameForServer := make(map[*networking.Server]string)
 	verifiedCertificateReferences := sets.New[string]()
 	http3AdvertisingRoutes := sets.New[string]()
-	tlsHostsByPort := map[uint32]map[string]string{} // port -> host/bind map
+	tlsHostsByPort := map[uint32]map[string]sets.String{} // port -> host -> binds
 	autoPassthrough := false
 
 	log.Debugf("mergeGateways: merging %d gateways", len(gateways))
@@ -295,7 +295,7 @@ func mergeGateways(gateways []gatewayWithInstances, proxy *Proxy, ps *PushContex
 					// sharing one wildcard listener. So different Gateways can
 					// have same host as long as they have different Bind.
 					if tlsHostsByPort[resolvedPort] == nil {
-						tlsHostsByPort[resolvedPort] = map[string]string{}
+						tlsHostsByPort[resolvedPort] = map[string]sets.String{}
 					}
 					if duplicateHosts := CheckDuplicates(s.Hosts, s.Bind, tlsHostsByPort[resolvedPort]); len(duplicateHosts) != 0 {
 						log.Warnf("skipping server on gateway %s, duplicate host names: %v", gatewayName, duplicateHosts)
@@ -580,17 +580,17 @@ func GetSNIHostsForServer(server *networking.Server) []string {
 
 // CheckDuplicates returns all of the hosts provided that are already known
 // If there were no duplicates, all hosts are added to the known hosts.
-func CheckDuplicates(hosts []string, bind string, knownHosts map[string]string) []string {
+func CheckDuplicates(hosts []string, bind string, knownHosts map[string]sets.String) []string {
 	var duplicates []string
 	for _, h := range hosts {
-		if existingBind, ok := knownHosts[h]; ok && bind == existingBind {
+		if knownHosts[h].Contains(bind) {
 			duplicates = append(duplicates, h)
 		}
 	}
-	// No duplicates found, so we can mark all of these hosts as known
+	// No duplicates found, so we can mark all of these hosts as known for this bind
 	if len(duplicates) == 0 {
 		for _, h := range hosts {
-			knownHosts[h] = bind
+			sets.InsertOrNew(knownHosts, h, bind)
 		}
 	}
 	return duplicates
